@@ -33,6 +33,8 @@ func init() {
 }
 
 func runC04(c *an.Ctx) {
+	c.Floor("C04-R9", 3)
+	ecsHopToHop(c, "C04-R9")
 	if n := sharedLoopCompleteness(c, "C04-R8", "dnsmsg.", "ecscache.", "dnsserver/cache."); n > 0 {
 		c.Ok("C04-R8", "element-wise loops", token.NoPos, "%d range loops of the cache and message helpers examined: no element ends a scan early", n)
 	}
@@ -331,6 +333,39 @@ func runC04(c *an.Ctx) {
 		c.Check(clone && setRcode && setAD, "C04-R5", "ecscache.fromCacheItem coverage", fn.Pos(),
 			"the served message is a clone of the item with the item's rcode and the AD bit recomputed for this request",
 			fmt.Sprintf("the hit path must clone the item (%v), restore its rcode (%v) and recompute AD from this request (%v)", clone, setRcode, setAD))
+		// the aged TTL is written to the records of all three sections
+		secs := map[string]bool{}
+		an.Instrs(fn, func(in ssa.Instruction) {
+			st, ok := in.(*ssa.Store)
+			if !ok {
+				return
+			}
+			if _, toElem := st.Addr.(*ssa.IndexAddr); !toElem {
+				return
+			}
+			if ld, ok := st.Val.(*ssa.UnOp); ok && ld.Op == token.MUL {
+				if typ, f, _, ok := an.FieldOf(ld.X); ok && typ == "github.com/miekg/dns.Msg" {
+					secs[f] = true
+				}
+			}
+		})
+		ttlStore := false
+		an.Instrs(fn, func(in ssa.Instruction) {
+			if st, ok := in.(*ssa.Store); ok {
+				if typ, f, _, ok := an.FieldOf(st.Addr); ok && typ == "github.com/miekg/dns.RR_Header" && f == "Ttl" {
+					ttlStore = true
+				}
+			}
+		})
+		var missing []string
+		for _, sec := range []string{"Answer", "Ns", "Extra"} {
+			if !secs[sec] {
+				missing = append(missing, sec)
+			}
+		}
+		c.Check(ttlStore && len(missing) == 0, "C04-R5", "ecscache.fromCacheItem ages every section", fn.Pos(),
+			"the aged TTL is written to the records of the answer, authority and additional sections",
+			"the aged TTL is not written to the records of "+strings.Join(missing, ", ")+": those records are served with their full original TTL at any cache age")
 	}
 	ecsStoreOrder(c, "C04-R5")
 
